@@ -317,6 +317,11 @@ class Exec:
                 return VFunc(z3.IntVal(str_code("function:" + v.name)), t.kind)
             return v
         if isinstance(t, TSeq) and isinstance(v, VSeq):
+            if z3.is_int_value(z3.simplify(v.ln)) and z3.simplify(v.ln).as_long() == 0 \
+                    and len(self.flat.sorts(t.elem)) != len(v.comps):
+                # the empty list literal stored where a list of objects is declared
+                comps = [z3.K(z3.IntSort(), z3.FreshConst(srt, "empty")) for srt in self.flat.sorts(t.elem)]
+                return VSeq(comps, z3.IntVal(0), t.elem, t.kind)
             return VSeq(v.comps, v.ln, v.et, t.kind if v.kind == "list" and t.kind != "list" else v.kind)
         return v
 
